@@ -46,7 +46,7 @@ CALIBRATION = {
     "point_cloud": {"points_checked": 7375237, "max_lmin_over_closest_pair": 0.99999996, "max_dist_over_1e-9L": 1.9e-06},
 }
 
-KINDS = ["torus", "open_box", "pinched_double_pyramid", "two_components", "duplicated_face", "torus_and_sphere"]
+KINDS = ["torus", "open_box", "pinched_double_pyramid", "two_components", "duplicated_face", "torus_and_sphere", "torus_with_bodies_touching_in_single_nodes"]
 FAMILIES = ["cube", "box", "prism", "sphere", "ellipsoid", "lprism", "starprism"]
 
 
@@ -94,7 +94,7 @@ def run(tier, seed, t0):
     return R.finish(ID, tier, seed, m,
                     "input file = 1-3 cells x shape family x face style (polygonal / triangulated / mixed) x per-face winding flips x rigid placement x "
                     "scale x l_min/size (85%: log-uniform 0.04..0.5, 15%: uniform 0.5..1.6; raised when the expected node count exceeds the budget) x mode (17/25 triangulation "
-                    "enabled, 3/25 disabled+triangulated, 1/25 disabled+polygonal, 3/25 disabled+not-a-cell rotating over 6 kinds, 1/25 "
+                    "enabled, 3/25 disabled+triangulated, 1/25 disabled+polygonal, 3/25 disabled+not-a-cell rotating over 7 kinds, 1/25 "
                     "enabled+not-a-cell); every case regenerable from (seed, case index) including the seeds handed to the repository's generators; "
                     "non-trivial = the initializer returned cells or an intialization_exception and the outcome was judged; distinct = hash of the input "
                     "file text, l_min and mode",
